@@ -82,7 +82,9 @@ def flows_to_return(sp, site, st):
             return True, ""
         return False, "the error built by the helper does not reach the return value"
     if body.def_kind == "Closure" and not body.is_coroutine:
-        if strip_wrappers(ret) != E:
+        r_ = strip_wrappers(ret)
+        wrapped = r_[0] == "agg" and r_[1][:3] == ("adt", "std::result::Result", "Err") and r_[2] and strip_wrappers(r_[2][0]) == E
+        if r_ != E and not wrapped:      # `|_| E` (map_err) or `|_| Err(E)` (unwrap_or_else / or_else)
             return False, "the closure does not return the constructed error"
         ctx = sp.failure_context(site)
         if not ctx or ctx[0] != "map_err":
